@@ -1060,7 +1060,9 @@ def restart_copy(obj):
     buf = io.BytesIO()
     _Pickler(buf, protocol=pickle.HIGHEST_PROTOCOL).dump(obj)
     buf.seek(0)
-    return _Unpickler(buf).load()
+    from sim import universe as _u
+    with _u.no_compiled_cache_growth():
+        return _Unpickler(buf).load()
 
 
 def make_cfg_c15(rng, tier):
